@@ -79,6 +79,28 @@ check("C04", "maps",
       "Trusted: TLC; HAProxy's lookup semantics as transcribed in Maps.tla (no HAProxy binary); regex paths and header filters are not in the alphabet.",
       "DESIGN.md 6 C04")
 
+ENUM_NOTE = "Trusted: TLC; the harness parsers; controller-runtime fake client. "
+check("C08", "classselect",
+      "TLA+ spec ClassSelect.tla (documented selection rule + delivery table); TLC enumerates all 48 rows and 576 transitions; the real cache facade, "
+      "watchers and pipeline run each; TLC judges the recorded decisions (TraceClassSelect.tla)",
+      "Exhaustive enumerated-input contract validation: IsValidIngress, GetIngressList, a freshly started controller and an incremental controller "
+      "(Ingress changed, or only the IngressClass object created/deleted/re-assigned) must agree with DocSelected for every row and transition; "
+      "Ingress changes must be delivered as add/update/delete per the selection before and after.",
+      ENUM_NOTE + "The legacy controller's copy of the rule is not covered.", "DESIGN.md 6 C08")
+check("C16", "weights",
+      "TLA+ spec Weights.tla (integer contract of weighted balancing); TLC enumerates weight/replica vectors; the real RebalanceWeight and the "
+      "pipeline with blue/green annotations produce server weights; TLC judges each (input, output) pair (TraceWeights.tla)",
+      "Enumerated-input contract validation of a numeric function: range 0..256, zero-iff, order kept, shares proportional up to one rounding unit "
+      "per server; n=2 grid exhaustive, n=3 reduced grid exhaustive, a stride sample through the pipeline in deploy and pod mode. Weakest fit of "
+      "the technique: TLC contributes enumeration and judgement only.",
+      ENUM_NOTE + "The contract is not a transcription of the float32 arithmetic.", "DESIGN.md 6 C16")
+check("C19", "snippet",
+      "TLA+ spec Snippet.tla (FirstToken / Dropped over character sequences); TLC enumerates all snippet texts; the real pipeline with "
+      "--disable-config-keywords writes the backends; TLC judges which lines reached each backend (TraceSnippet.tla)",
+      "Exhaustive enumerated-input contract validation: every text of length <= 4 (thorough 6) over {space, tab, newline, a, b, A} x 7 keyword lists, "
+      "as Ingress annotation, Service annotation or both; a dropped snippet contributes no line, any other appears verbatim.",
+      ENUM_NOTE + "Global-scope snippet keys are outside the check.", "DESIGN.md 6 C19")
+
 NOT_BUILT = "check not built yet (planned, DESIGN.md section 6); no claim made until the check exists"
 
 
